@@ -409,7 +409,7 @@ func (p *Path) assert(site string, cond value) {
 			p.cands = append(p.cands, c)
 		}
 	case Unknown:
-		p.incon = append(p.incon, "assert "+site+": solver unknown")
+		p.incon = append(p.incon, "assert "+site+": solver unknown ["+p.choiceString()+"]")
 	}
 	// (a) violations inside known regions
 	for i, rg := range regs {
@@ -473,6 +473,17 @@ func (p *Path) modelMap(mv map[*Term]uint64) map[string]string {
 		}
 	}
 	return m
+}
+
+// choiceString lists the path's choices (to identify an inconclusive path).
+func (p *Path) choiceString() string {
+	var ch []string
+	for _, in := range p.inputs {
+		if in.Kind == "choice" {
+			ch = append(ch, in.Name+"="+strconv.Itoa(in.N))
+		}
+	}
+	return strings.Join(ch, ",")
 }
 
 func (p *Path) mkCand(site, known string, mv map[*Term]uint64) Candidate {
